@@ -17,11 +17,11 @@ fn pl_entry(i: usize, nh: usize) -> PatchEntry {
     }
 }
 fn pl_list(n: usize, game: bool, hk: usize) -> PatchList {
-    PatchList { id: "477D80B1_38BC_41d4_8B48_5273ADB89CAC".to_string(), patch_length: 0, content_location: "ffxivpatch/4e9a232b/metainfo/2023.07.26.0000.0000.http".to_string(),
+    PatchList { id: "477D80B1_38BC_41d4_8B48_5273ADB89CAC".to_string(), patch_length: 0, content_location: if hk == 3 { String::new() } else { "ffxivpatch/4e9a232b/metainfo/2023.07.26.0000.0000.http".to_string() },
                 requested_version: String::new(), patches: (0..n).map(|i| pl_entry(i, if game { 1 + (i + hk) % 4 } else { 0 })).collect() }
 }
 
-//@unit props=C10 label=B tier=quick native=1 fn=patchlist::PatchList::{to_string,from_string} bound="by execution: boot and game lists of 0..8 entries, 1..4 hashes per game entry, sizes from {0, 1, 136864, 22221335, 44145529682, 2^59+12345} (totals below 2^63)"
+//@unit props=C10 label=B tier=quick native=1 fn=patchlist::PatchList::{to_string,from_string} bound="by execution: boot and game lists of 0..8 entries, 1..4 hashes per game entry, sizes from {0, 1, 136864, 22221335, 44145529682, 2^59+12345} (totals below 2^63), with and without a content location, each list also parsed, rendered and parsed a second time"
 //@desc a list rendered to its wire text and parsed again yields the same patches (length, size on disk, version, hash block size, hashes, URL) and a total patch length equal to the sum of the patch lengths
 #[test]
 fn native_patchlist_roundtrip() {
@@ -33,7 +33,7 @@ fn native_patchlist_roundtrip() {
                 let list = pl_list(n, game, hk);
                 let total: i64 = list.patches.iter().map(|p| p.length).sum();
                 let text = list.to_string(ty());
-                assert!(text.starts_with("--477D80B1_38BC_41d4_8B48_5273ADB89CAC\r\nContent-Type: application/octet-stream\r\nContent-Location: "), "multipart-style header");
+                assert!(text.starts_with(&format!("--477D80B1_38BC_41d4_8B48_5273ADB89CAC\r\nContent-Type: application/octet-stream\r\nContent-Location: {}\r\nX-Patch-Length: ", list.content_location)), "multipart-style header: boundary, content type, content location (also when empty), patch length");
                 assert!(text.contains(&format!("\r\nX-Patch-Length: {total}\r\n\r\n")), "X-Patch-Length carries the sum of the patch lengths");
                 assert!(text.ends_with("--477D80B1_38BC_41d4_8B48_5273ADB89CAC--\r\n"), "closing boundary");
                 let back = PatchList::from_string(ty(), &text);
@@ -43,6 +43,10 @@ fn native_patchlist_roundtrip() {
                     assert_eq!((a.length, a.size_on_disk, &a.version, &a.url), (b.length, b.size_on_disk, &b.version, &b.url), "entry fields (game={game}, n={n})");
                     if game { assert_eq!((a.hash_block_size, &a.hashes), (b.hash_block_size, &b.hashes), "hash block size and hashes"); }
                 }
+                // a parsed list (which carries no id or content location) rendered and parsed again is the same list
+                let again = PatchList::from_string(ty(), &back.to_string(ty()));
+                assert_eq!((again.patches.len(), again.patch_length), (n, total as u64), "parse o render o parse keeps every patch and the total (game={game}, n={n})");
+                for (a, b) in list.patches.iter().zip(again.patches.iter()) { assert_eq!((a.length, a.size_on_disk, &a.version, &a.url), (b.length, b.size_on_disk, &b.version, &b.url), "entry fields after the second round trip"); }
                 cases += 1;
             }
         }
